@@ -176,7 +176,18 @@ def interpreted_fresh(ev, init) -> None:
     fn = find_func(evcls.body, "set_activation")
     ctx = fn.args.args[1].arg
     vals = _check_clone_then_load(fn, ctx, "Evaluator.set_activation")
-    if vals != ["self.base_activation.clone()"]:
+    # top-level bindings: clone + load_values.  The evaluator of a macro's sub-expression (`local_scope`, set only by
+    # `sub_evaluator`) may instead bind its variable in a nested activation, which writes no existing object either.
+    nested = f"self.base_activation.nested_activation(vars={ctx})"
+    if vals == ["self.base_activation.clone()", nested]:
+        ifs = [n for n in fn.body if isinstance(n, ast.If) and _u(n.test) == "self.local_scope"]
+        ok = len(ifs) == 1 and [_u(x) for x in ifs[0].body] == [f"self.activation = {nested}"] and \
+            [_u(x) for x in ifs[0].orelse] == ["self.activation = self.base_activation.clone()",
+                                               f"self.activation.identifiers.load_values({ctx})"]
+        cls_default = [n for n in evcls.body if isinstance(n, ast.Assign) and _u(n.targets[0]) == "local_scope"]
+        if not ok or len(cls_default) != 1 or _u(cls_default[0].value) != "False":
+            raise TranslationError("Evaluator.set_activation: unrecognised local_scope branch")
+    elif vals != ["self.base_activation.clone()"]:
         raise TranslationError(f"Evaluator.set_activation: unexpected activation set-up {vals}")
     ir = find_class(init, "InterpretedRunner")
     fn = find_func(ir.body, "evaluate")
